@@ -14,6 +14,7 @@ CLASSES = {
     "IndependenceAssertion": {"mro": ["IndependenceAssertion"], "file": "pgmpy/independencies/Independencies.py"},
     "DynamicBayesianNetwork": {"mro": ["DynamicBayesianNetwork", "DAG", "DiGraph"], "file": "pgmpy/models/DynamicBayesianNetwork.py"},
     "MarkovNetwork": {"mro": ["MarkovNetwork", "UndirectedGraph", "Graph"], "file": "pgmpy/models/MarkovNetwork.py"},
+    "FactorGraph": {"mro": ["FactorGraph", "UndirectedGraph", "Graph"], "file": "pgmpy/models/FactorGraph.py"},
     "Graph": {"mro": ["Graph"], "file": None},
     "DiGraph": {"mro": ["DiGraph"], "file": None},
 }
